@@ -21,7 +21,6 @@ package iam
 import (
 	"context"
 	"encoding/base64"
-	"errors"
 	"fmt"
 	"github.com/nuts-foundation/nuts-node/auth/log"
 	"github.com/nuts-foundation/nuts-node/auth/oauth"
@@ -86,18 +85,14 @@ func (r Wrapper) ValidateDPoPProof(_ context.Context, request ValidateDPoPProofR
 		reason := "ath/token claim mismatch"
 		return ValidateDPoPProof200JSONResponse{Reason: &reason}, nil
 	}
-	// check if the jti is already used, if not add it to the store for the duration of the access token lifetime
-	var target struct{}
-	if err := r.useNonceOnceStore().Get(dpopToken.Token.JwtID(), &target); err != nil {
-		if !errors.Is(err, storage.ErrNotFound) {
-			log.Logger().WithError(err).Error("ValidateDPoPProof: failed to retrieve jti usage state")
-			return nil, err
-		}
-		if err := r.useNonceOnceStore().Put(dpopToken.Token.JwtID(), target); err != nil {
-			log.Logger().WithError(err).Error("ValidateDPoPProof: failed to store jti usage state")
-			return nil, err
-		}
-	} else {
+	// check if the jti is already used, if not add it to the store for the duration of the access token lifetime.
+	// this is done in one step, so concurrent requests with the same jti can't all pass the check.
+	fresh, err := r.useNonceOnceStore().PutIfAbsent(dpopToken.Token.JwtID(), struct{}{})
+	if err != nil {
+		log.Logger().WithError(err).Error("ValidateDPoPProof: failed to store jti usage state")
+		return nil, err
+	}
+	if !fresh {
 		// jti already used
 		reason := "jti already used"
 		return ValidateDPoPProof200JSONResponse{Reason: &reason}, nil
